@@ -36,8 +36,9 @@ theorem cast_int_wraps (w : Width) (v : Int) : castIntTo w v = wrap w.bits v := 
   · exact castBounded_wraps 64 (by decide) v
 
 -- OBLIGATION: PysparklingVerif.C18.cast_float_wraps
-/-- a finite float is first truncated toward zero, then wrapped -/
-theorem cast_float_wraps (w : Width) (num : Int) (den : Nat) :
+/-- a finite float `num / den` is first truncated toward zero, then wrapped (every finite float is such a ratio with a
+positive denominator; the non-finite ones raise in the code and are not in the model) -/
+theorem cast_float_wraps (w : Width) (num : Int) (den : Nat) (_hden : 0 < den) :
     castFloatTo w num den = wrap w.bits (Int.tdiv num den) := cast_int_wraps w _
 
 -- OBLIGATION: PysparklingVerif.C18.cast_bool_wraps
